@@ -140,6 +140,18 @@ theorem ok_append (cerr : Nat → Bool) : ∀ (a b : List Instr) (h : Bool), ok 
       | exact ok_append cerr a b _ ha
       | (simp [ha.1]; exact ok_append cerr a b _ ha.2)
 
+/-- every method of the pool respects the lock discipline, whatever the transports report on Close -/
+theorem ok_meth (cerr : Nat → Bool) (m : Meth) : ok cerr false m.prog = true := by
+  cases m <;> simp [Meth.prog, ok, pClose, pHandleError, pPick, pConnectTail]
+
+/-- … and so does every sequence of them run by one goroutine -/
+theorem ok_progOf (cerr : Nat → Bool) : ∀ ms : List Meth, ok cerr false (progOf ms) = true
+  | [] => rfl
+  | m :: ms => by
+    have : progOf (m :: ms) = m.prog ++ progOf ms := by simp [progOf]
+    rw [this, ok_append cerr _ _ false (ok_meth cerr m)]
+    exact ok_progOf cerr ms
+
 /-- under the invariant the thread that holds the lock can always move -/
 theorem holder_steps (cerr : Nat → Bool) (st : St) (t : Nat) (h : LInv cerr st) (hh : st.holder = some t) :
     (step cerr st t).isSome = true := by
